@@ -7,6 +7,7 @@ import (
 	"go/constant"
 	"go/token"
 	"go/types"
+	"strconv"
 	"strings"
 
 	"golang.org/x/tools/go/ssa"
@@ -85,6 +86,7 @@ type G struct {
 	vc       VC
 	name     string
 	isMain   bool
+	slice    int // steps executed since this goroutine was last scheduled in
 }
 
 func (g *G) top() *Frame { return g.frames[len(g.frames)-1] }
@@ -189,6 +191,8 @@ func (e *Exec) constVal(c *ssa.Const) Value {
 }
 
 // run drives all goroutines until the main goroutine finishes or nothing can run.
+const spinLimit = 600000
+
 func (e *Exec) run() {
 	for {
 		g := e.cur
@@ -198,6 +202,16 @@ func (e *Exec) run() {
 				return
 			}
 			e.cur = g
+			g.slice = 0
+		}
+		// a goroutine other than main that runs this long without ever blocking is spinning (e.g.
+		// a loop retrying on a socket that fails at once): park it for good so that the rest of the
+		// run, and its assertions, are still evaluated
+		g.slice++
+		if g.slice > spinLimit && !g.isMain {
+			e.incon = append(e.incon, "goroutine "+g.name+" parked: "+strconv.Itoa(spinLimit)+" steps without blocking (busy loop)")
+			e.block(g, "parked (busy loop)")
+			continue
 		}
 		e.steps++
 		if e.steps > e.cfg.MaxSteps {
